@@ -92,6 +92,12 @@ def cmp_eq(fs, impl, a, what, spec_key="spec", model_key="model", only=None, uni
 def topo_fail(fs, a):
     if a.get("topo") != [1]:
         fs.append({"kind": "spec", "what": "cell order handed to the sweep is not downstream-first (C03 hypothesis)"})
+    if "cover" in a and a["cover"] != [1]:
+        fs.append({"kind": "spec", "what": "cell order handed to the sweep does not hold every cell of the network / field "
+                   "size != network size (hypotheses of fill_down_eq_spec)"})
+    if "cover" in a and a["cover"] == [1] and a.get("topo") == [1] and a["model"] != a["spec"]:
+        # proved impossible (fill_down_eq_spec): the driver would not be the proved build
+        fs.append({"kind": "model", "what": "Lean model != Lean oracle although the hypotheses of fill_down_eq_spec hold"})
 
 
 class Net:
@@ -366,6 +372,11 @@ def case_hand(ctx, rng, N):
         drain = [rng.random() < 0.2 for _ in range(N.n)]
     elev = [rng.randint(0, 40) for _ in range(N.n)]
     dt = rng.choice([np.float32, np.float64, np.int32])
+    if dt != np.float32 and rng.random() < 0.3:
+        # elevations that need more than float32's 24 bits (exact in float64 / int32 arithmetic)
+        base = rng.randint(2 ** 24, 2 ** 30 if dt == np.int32 else 2 ** 44)
+        elev = [base + e * rng.choice([1, 1, 3]) for e in elev]
+        ctx.count("hand:large-magnitude-elevation")
     out = N.flw.hand(arr(N, drain, bool), arr(N, elev, dt))
     impl = exact_ints(out)
     ctx.count("op:hand")
